@@ -1,9 +1,11 @@
 (* C10 - The fast alignment terminates with a valid, never-better-than-optimal alignment.
    The best alignment of each window is an oracle; the theorems assume of each recorded answer only that it is an acceptable alignment of the
    current state (pairwise distinct real units of the state, no all-empty tuple) - which the harness checks per iteration through C01's judge.
-   Proofs in theories/Fast/Proofs.v. *)
-From Coq Require Import List Arith ZArith Bool Permutation.
+   Proofs in theories/Fast/Proofs.v.  The C10_src_* theorems at the end are re-proved on every run against genprops/FastGen.v, the translation of
+   the scalar logic and loop shapes of get_first_window / get_fast_alignment from the CURRENT continuum.py (harness/gen_fast.py). *)
+From Coq Require Import String List Arith ZArith Bool Permutation Lia.
 From PGA Require Import Fast.Model Fast.Proofs Fast.FastFull.
+From PGAprops Require Import FastGen.
 Import ListNotations.
 Local Open Scope Z_scope.
 
@@ -68,3 +70,41 @@ Example C10_example :
   fast_step false wit_dtab 1 1 wit_st wit_al = ([], wit_st) /\
   total_units (snd (fast_step true wit_dtab 1 1 wit_st wit_al)) = 2%nat.
 Proof. vm_compute. split; reflexivity. Qed.
+
+(* ---------------------------------------------------------------------------------------------------------------------------------
+   Tie to the source: the number of units the head takes, the head's loop and take tests, the reachability threshold, and the statements that
+   fix the rest of the two loops (x_limit = the window's upper bound; every window gets its best alignment; take_until_limit, else the tuple
+   ending first; every chosen tuple is recorded with its disorder and its real units are removed from the working copy; the loop runs while
+   the copy holds a unit) are those the model was written for. *)
+Theorem C10_src_to_take (st : fstate) (w : nat) :
+  to_take_src (Z.of_nat (total_units st)) (Z.of_nat w) (Z.of_nat (length st)) = Z.of_nat (Nat.min (total_units st) (w * length st)).
+Proof. unfold to_take_src. rewrite Nat2Z.inj_min, Nat2Z.inj_mul. reflexivity. Qed.
+Theorem C10_src_head_continues (to_take taken : nat) : head_continues_src (Z.of_nat taken) (Z.of_nat to_take) = negb (to_take <=? taken)%nat.
+Proof.
+  unfold head_continues_src. destruct (Nat.leb_spec to_take taken); cbn [negb].
+  - apply Z.ltb_ge. lia.
+  - apply Z.ltb_lt. lia.
+Qed.
+Theorem C10_src_head_takes (u : funit) xl : head_takes_src (fe u) xl = (fe u <=? xl).
+Proof. reflexivity. Qed.
+Theorem C10_src_reach_stops d de n : reach_stops_src d de n = (de * n <? d).
+Proof. reflexivity. Qed.
+Theorem C10_src_first_window_shape :
+  first_window_shape_src =
+  [("head_min", "if index >= size: continue; unit = units[index]; x_limit = min(x_limit, unit.segment.end)");
+   ("head_taken", "window.add(annotator, unit.segment, unit.annotation); rightmost_unit = max(unit, rightmost_unit); taken_units += 1; indexes[i] += 1");
+   ("x_limit_after_head", "x_limit = window.bound_sup");
+   ("reach_loop", "for (annotator, units, index, size) in zip(annotators, annotations, indexes, sizes): while index < size");
+   ("reach_body", "unit = units[index]; window.add(annotator, unit.segment, unit.annotation); index += 1");
+   ("smallest_unit", "Unit(Segment(-np.inf, -np.inf), None)");
+   ("return", "return (window, x_limit)")]%string.
+Proof. reflexivity. Qed.
+Theorem C10_src_fast_alignment_shape :
+  fast_alignment_shape_src =
+  [("loop", "while copy");
+   ("steps", "window, x_limit = copy.get_first_window(dissimilarity, window_size); best_alignment = window.get_best_alignment(dissimilarity); chosen_alignments = list(best_alignment.take_until_limit(x_limit))");
+   ("fallback", "if not chosen_alignments: chosen_alignments = [min(best_alignment.unitary_alignments, key=lambda unit_align: unit_align.bounds[1])]");
+   ("consume", "for chosen in chosen_alignments: unitary_alignments.append(chosen); disorders.append(chosen.disorder); for annotator, unit in chosen.n_tuple: if unit is not None: copy.remove(annotator, unit)");
+   ("copy", "self.copy()");
+   ("return", "return Alignment(unitary_alignments, self, check_validity=False, disorder=np.sum(disorders) / self.avg_num_annotations_per_annotator)")]%string.
+Proof. reflexivity. Qed.
